@@ -207,7 +207,44 @@ def validate_traces(specdir, scratch, traces, rep, nshards=None):
             pr['trace'] = idx[pr['tid'] - 1]
             out.append(pr)
     rep.count('trace_steps_validated', nsteps)
+    _binding_selftest(specdir, scratch, traces, out)
     return out
+
+
+def _binding_selftest(specdir, scratch, traces, reports):
+    """DESIGN section 7: traces TLC accepted are corrupted in one recorded field of their last step - a public place, the
+    competition state - and judged again; a trace specification that still accepts them is not bound to what was recorded."""
+    import copy
+    if os.environ.get('VERIF_NO_SELFTEST'):
+        return
+    flagged = {pr['trace'] for pr in reports}
+    bad = []
+    for k, t in enumerate(traces):
+        if k in flagged or not t['steps'] or len(t['steps']) > 40:
+            continue
+        c = copy.deepcopy(t)
+        post = c['steps'][-1].get('post')
+        if not isinstance(post, dict) or not post.get('j'):
+            continue
+        if len(bad) % 2 == 0:
+            b = sorted(post['j'])[0]
+            post['j'][b]['pub'] = 9                      # a public place nobody can hold
+        else:
+            post['state'] = 'scheduled' if post.get('state') != 'scheduled' else 'finished'
+        c['steps'][-1]['pr'] = []
+        bad.append(c)
+        if len(bad) >= 6:
+            break
+    if not bad:
+        return
+    p = scratch.file('trace_selftest.ndjson')
+    common.write_ndjson(p, bad)
+    r = common.run_tlc_shards(specdir, 'Trace_HighJump', 'Trace_HighJump.cfg', [{'TRACE_FILE': p}], workers_each=1,
+                              timeout=TLC_TIMEOUT, heap='3g')[0]
+    rejected = len({pr['tid'] for pr in r.printed})
+    common.SELFTESTS.append({'trace_spec': 'Trace_HighJump', 'corrupted': len(bad), 'rejected': rejected})
+    if rejected < len(bad):
+        raise MachineryError('binding self-test: Trace_HighJump accepted %d of %d corrupted traces' % (len(bad) - rejected, len(bad)))
 
 
 KNOWN_FINDING_HISTORIES = {
